@@ -211,6 +211,12 @@ def auth_variants(user, pw):
         ('user_plus_nonascii', {'k': 'basic', 'user': user + 'é', 'password': pw}),
         ('password_plus_space', {'k': 'basic', 'user': user, 'password': pw + ' '}),
         ('password_plus_nul', {'k': 'basic', 'user': user, 'password': pw + '\x00'}),
+        # the right characters with the boundary between user name and password moved (a comparison of the joined string,
+        # or of one part only after a split at another place, would accept them)
+        ('boundary_moved_left', {'k': 'basic', 'user': user[:-1], 'password': user[-1:] + pw}),
+        ('boundary_moved_right', {'k': 'basic', 'user': user + pw[:1], 'password': pw[1:]}),
+        ('all_in_user', {'k': 'basic', 'user': user + pw, 'password': ''}),
+        ('all_in_password', {'k': 'basic', 'user': '', 'password': user + pw}),
     ]
     more = [
         ('upper_user', {'k': 'basic', 'user': user.upper(), 'password': pw}),
